@@ -134,6 +134,34 @@ theorem C01_hex_token_eof_partial (body : Bytes) (n : Nat)
   rw [C01_hex_then _ rfl 10 _ (by decide)]
   simp [stepByte, stepN, searchClass, hsp]
 
+/-- What the code reads for EVERY hexadecimal string, with no restriction on the digit count: the digit
+    pairs, a final odd digit as the LOW nibble (`codePairUp`).  Together with `C01_hex_code_even` this says
+    exactly where the code leaves ISO 32000-1 7.3.4.3 (`pairUp`): only in the last byte of an odd-length
+    string — the open finding, nothing else. -/
+theorem C01_hex_token_code (body : Bytes) (hb : ∀ c ∈ body, isHEX c = true ∨ isSPC c = true) :
+    specLex (60 :: body ++ [62]) = [(0, Token.str (codePairUp (hexDigits body)))] := by
+  have hsp : isNONSPC 10 = false := by decide +kernel
+  unfold specLex
+  rw [foldBytes_append, hex_spelling_code St.init rfl body 0 hb]
+  simp only [foldBytes]
+  rw [C01_hex_then _ rfl 10 _ (by decide)]
+  simp [stepByte, stepN, searchClass, hsp, hexDigits]
+
+/-- … at every buffer size. -/
+theorem C01_hex_token_code_buffered (b : Nat) (hb1 : 1 ≤ b) (body : Bytes)
+    (hb : ∀ c ∈ body, isHEX c = true ∨ isSPC c = true) :
+    run b (60 :: body ++ [62]) = some [(0, Token.str (codePairUp (hexDigits body)))] := by
+  rw [C14.C14_run_eq_spec b hb1, C01_hex_token_code body hb]
+
+/-- the code's reading is ISO's whenever the digit count is even -/
+theorem C01_hex_code_even (ds : Bytes) (n : Nat) (h : ds.length = 2 * n) : codePairUp ds = pairUp ds :=
+  codePairUp_even n ds h
+
+/-- Non-vacuity: `<4 1<NUL>4a7>` (odd): code 41 4A 07, ISO 41 4A 70. -/
+example : (∀ c ∈ ([52, 32, 49, 0, 52, 97, 55] : Bytes), isHEX c = true ∨ isSPC c = true) ∧
+    codePairUp (hexDigits [52, 32, 49, 0, 52, 97, 55]) = [65, 74, 7] ∧
+    pairUp (hexDigits [52, 32, 49, 0, 52, 97, 55]) = [65, 74, 112] := by decide +kernel
+
 /-- The pinned code breaks the full statement on an odd digit count: `<2>` reads as 0x02, ISO says 0x20
     (open finding `odd-hex-digit`; the unit tests pin this behaviour). -/
 theorem C01_odd_hex_cex : specLex [60, 50, 62] = [(0, Token.str [2])] ∧ pairUp (hexDigits [50]) = [32] := by
